@@ -140,7 +140,7 @@ func cmdCheck(args []string) int {
 				if *caseF != "" && !strings.Contains(vc.Name, *caseF) {
 					continue
 				}
-				if *tier == "quick" && len(cfg.QuickCases) > 0 && strings.Contains(vc.Name, "#") {
+				if *tier == "quick" && len(cfg.QuickCases) > 0 && strings.Contains(vc.Name, "#loop") {
 					keep := false
 					for _, sfx := range cfg.QuickCases {
 						if strings.HasSuffix(vc.Name, sfx) {
